@@ -3,8 +3,7 @@
 log="$1"; shift
 for spec in "$@"; do
   m="${spec%%:*}"; props="${spec##*:}"
-  p=/tmp/wt/${m%%/*}/_seeded/${m##*/}/patch.diff
-  [ -f "$p" ] || p=/verif/seeded/${m%%/*}-${m##*/}/patch.diff
+  p=/verif/seeded/${m%%/*}-${m##*/}/patch.diff
   echo "#### $m ($(date +%H:%M:%S))" >> "$log"
   /verif/tools/try_mutant.sh "$p" ${props//,/ } >> "$log" 2>&1
 done
